@@ -1,5 +1,6 @@
 mod c11;
 mod c19;
+mod clock;
 mod common;
 mod conc;
 mod conc_checks;
